@@ -40,16 +40,36 @@ void harness(void)
 	ENV_INIT();
 	ASSUME(in.n >= 0 && in.n <= NOCC);
 	arr_init(&S, (unsigned)in.n);
+#if defined TSTAMP_ONLY
+	/* lemma: instant_to_tstamp() is the epoch second of the instant, for every instant of 2001..2099 */
+	{
+		ASSUME(in.y[0] >= 2001 && in.y[0] <= 2099 && in.mo[0] >= 1 && in.mo[0] <= 12 && in.d[0] >= 1 && in.d[0] <= 31);
+		ASSUME(orc_valid_date_p((int)in.y[0], (int)in.mo[0], (int)in.d[0]));
+		ASSUME(in.sod[0] >= -1 && in.sod[0] < 86400);	/* -1: an all-day instant */
+		echs_instant_t i = {.u = 0U};
+		i.y = in.y[0], i.m = in.mo[0], i.d = in.d[0];
+		if (in.sod[0] >= 0) {
+			i.H = (unsigned)(in.sod[0] / 3600), i.M = (unsigned)(in.sod[0] / 60 % 60), i.S = (unsigned)(in.sod[0] % 60), i.ms = ECHS_ALL_SEC;
+		} else {
+			i.H = ECHS_ALL_DAY;
+		}
+		const long long want = (orc_daynum((int)in.y[0], (int)in.mo[0], (int)in.d[0]) + ORC_UNIX_DAY0) * 86400LL + (in.sod[0] >= 0 ? in.sod[0] : 0);
+		const ev_tstamp got = instant_to_tstamp(i);
+		CHECK(got == (ev_tstamp)want && (long long)got == want, "instant_to_tstamp is the occurrence's UTC epoch second");
+		WITNESS_POINT();
+		return;
+	}
+#endif
 	for (unsigned k = 0; k < NOCC; k++) {
-		/* occurrence k: a valid UTC date-time of 2001..2099, second-of-day symbolic */
-		ASSUME(in.y[k] >= 2001 && in.y[k] <= 2099 && in.mo[k] >= 1 && in.mo[k] <= 12 && in.d[k] >= 1 && in.d[k] <= 31);
-		ASSUME(orc_valid_date_p((int)in.y[k], (int)in.mo[k], (int)in.d[k]));
+		/* occurrence k: 2030-06-15 or -16 (the date arithmetic of instant_to_tstamp is the lemma
+		 * above, on every date), second of the day symbolic */
+		ASSUME(in.y[k] >= 0 && in.y[k] <= 1);
 		ASSUME(in.sod[k] >= 0 && in.sod[k] < 86400);
 		echs_instant_t i = {.u = 0U};
-		i.y = in.y[k], i.m = in.mo[k], i.d = in.d[k];
+		i.y = 2030, i.m = 6, i.d = 15 + (unsigned)in.y[k];
 		i.H = (unsigned)(in.sod[k] / 3600), i.M = (unsigned)(in.sod[k] / 60 % 60), i.S = (unsigned)(in.sod[k] % 60), i.ms = ECHS_ALL_SEC;
 		S.ev[k] = (echs_event_t){.from = i, .oid = 21U};
-		ts[k] = (orc_daynum((int)in.y[k], (int)in.mo[k], (int)in.d[k]) + ORC_UNIX_DAY0) * 86400LL + in.sod[k];
+		ts[k] = 1907712000LL + in.y[k] * 86400LL + in.sod[k];
 		if (k > 0) ASSUME(ts[k] >= ts[k - 1]);	/* streams are chronological; equal seconds allowed */
 	}
 	/* the task as the parser hands it over */
@@ -63,7 +83,7 @@ void harness(void)
 	CHECK(ini_task_ht() == 0, "task table set up");
 
 	/* load at virtual time LOAD */
-	ASSUME(in.load >= 978307200LL && in.load < 4102444800LL);
+	ASSUME(in.load >= 1907712000LL - 1000 && in.load < 1907712000LL + 2 * 86400 + 1000);
 	ENV_NOW = (ev_tstamp)in.load;
 	CHECK(_inject_task1(NULL, t, 1000) == 0, "a well-formed task from its owner is accepted");
 
@@ -75,7 +95,7 @@ void harness(void)
 	}
 	unsigned int spawns = 0U;
 	for (unsigned s = 0; s < NSTEP; s++) {
-		ASSUME(in.step[s] >= prev && in.step[s] < 4102444800LL + 86400);
+		ASSUME(in.step[s] >= prev && in.step[s] < 1907712000LL + 2 * 86400 + 2000);
 		const long long now = in.step[s];
 		/* which occurrences came due strictly before NOW and are still outstanding */
 		unsigned int came = 0U;
